@@ -16,6 +16,9 @@ from vlib.runner import Sub
 import gaddlemaps
 from gaddlemaps import Alignment, Manager, _cli
 from gaddlemaps.components import Molecule
+from vlib.build import custom_coordinate_format
+
+CUSTOM_EXT = custom_coordinate_format()         # registered AFTER gaddlemaps._cli was imported (the layout of a user's script)
 
 PROPERTY = "C20"
 # species names: each of the others is contained in the second one (prefix / suffix), so that a test of the form
@@ -102,7 +105,7 @@ def directory_case(draw):
             seq.append(k)
     distractors = draw(st.lists(st.sampled_from(["foreign", "absent", "solvent", "system-file", "copy-gro",
                                                  "copy-itp", "missing-coords", "same-basename-gro", "same-basename-itp",
-                                                 "shared-end-gro", "lookalike", "snapshots"]),
+                                                 "shared-end-gro", "lookalike", "snapshots", "custom-format"]),
                                 min_size=0, max_size=5, unique=True))
     shared_only = []
     if draw(st.integers(0, 3)) == 0:
@@ -202,6 +205,17 @@ def build_directory(case, rename_end=False):
             indep.write_gro(p, "second copy", spec_records(case["species"][case["dup_of"]]["end"]), [6.0, 6.0, 6.0])
             listing.append(p)
             candidates[nm]["coor_AA"].append(p)
+        elif dname == "custom-format":
+            # the end coordinates of one species exist only in a coordinate format the user registered himself
+            nm = spn(case, case["dup_of"])
+            old_p = triples[nm][1]
+            if old_p not in listing or not old_p.endswith(".gro"):
+                continue
+            new_p = old_p[:-4] + "." + CUSTOM_EXT
+            os.rename(old_p, new_p)
+            listing[listing.index(old_p)] = new_p
+            triples[nm][1] = new_p
+            candidates[nm]["coor_AA"] = [new_p if p == old_p else p for p in candidates[nm]["coor_AA"]]
         elif dname == "snapshots":
             # a folder of further coordinate snapshots of one species handed over with the other candidates (--auto *),
             # more of them than the process may hold open at once (the driver lowers its open-file limit)
